@@ -1,11 +1,12 @@
-import ErrModel.Proofs.RoundTrip
+import ErrModel.Proofs.Subset
 /-
   C04 — Unknown error types pass through a process losslessly.
 
-  Proved for an intermediary that knows NONE of the types (every node becomes an opaque
-  carrier) and arbitrary wire messages; intermediaries that know a subset are covered by
-  the correspondence and the oracle (every subset of the families present, thorough
-  tier).  Stated for the repaired tree (/repo fixes e44dfc0 withPrefix, 3639298
+  Proved (a) for an intermediary that knows NONE of the types (every node becomes an opaque
+  carrier) and ARBITRARY wire messages, and (b) for an intermediary that knows ANY SUBSET of
+  the type keys — layer by layer, any mixture of rebuilt and opaque layers — and every
+  message a knowing process sends for a stable, wire-faithful error (C04_subset*,
+  Proofs/Subset.lean).  Stated for the repaired tree (/repo fixes e44dfc0 withPrefix, 3639298
   withNewMessage, 7cf20c4 join, 5e368e8 barrier details).  Two recorded findings remain
   (known_findings.json): a barrier puts its *redactable* message on the wire, and gRPC
   status errors put only their description there — an unknowing process shows those.
@@ -71,11 +72,6 @@ theorem C04_later (Q R : Proc) (hq : KnowsNothing Q) (vf : Err → Str) (w : Enc
   obtain ⟨e, he, he2⟩ := C04_exact Q hq vf w p1
   exact ⟨e, he, by rw [he2]⟩
 
-/-- the Error() text an unknowing process shows for a wire message -/
-def wireText : Enc → Str
-  | .leaf msg _ _ _ => msg
-  | .wrap msg _ mt _ cause => opaqueText msg mt (wireText cause)
-
 mutual
 theorem C04_text_unknowing (Q : Proc) (hq : KnowsNothing Q) :
     (w : Enc) → (path : List Nat) → ∃ e, decode Q path w = some e ∧ text e = wireText w
@@ -112,5 +108,71 @@ theorem C04_wire_join (vf : Err → Str) (id : Ident) (cs : List Err) :
 theorem C04_barrier_counterexample :
     let e : Err := .barrier [1] ⟨b!"a ‹b›", none⟩ (.leaf [2] (.errorString (b!"x")))
     text e = b!"a b" ∧ wireText (encode Full (fun _ => []) e) = b!"a ‹b›" := by decide
+
+
+/-! ## Any subset of the types -/
+
+/-- An error sent by a knowing process and received by a process that has ANY subset `S`
+    of the type keys registered (each layer rebuilt or carried opaquely, in any mixture):
+    decoding succeeds, the Error() text is the origin's, and re-encoding reproduces exactly
+    the message received.  `stable`: locally constructible shapes; `faithful`: no layer of the
+    two recorded findings (a barrier message with markers, a gRPC status leaf) and no empty
+    prefix that prints its separator. -/
+theorem C04_subset (S : Str → Bool) (vf : Err → Str) (e : Err) (path : List Nat)
+    (h : stable e = true) (hf : faithful e = true) :
+    ∃ e', decode (Sub S) path (encode Full vf e) = some e' ∧
+      encode (Sub S) vf e' = encode Full vf e ∧ text e' = text e :=
+  hopQ_ok S vf e path h hf
+
+/-- a chain of intermediaries, each knowing its own subset of the types: each decodes the
+    message and re-encodes what it decoded -/
+def relay (vf : Err → Str) : List (Str → Bool) → Enc → Option Enc
+  | [], w => some w
+  | S :: r, w => (decode (Sub S) [0] w).bind (fun e => relay vf r (encode (Sub S) vf e))
+
+/-- Through ANY number of intermediaries knowing ANY subsets, the message that leaves the
+    last one is the message the origin sent … -/
+theorem C04_relay (vf : Err → Str) (e : Err) (h : stable e = true) (hf : faithful e = true) :
+    ∀ Ss : List (Str → Bool), relay vf Ss (encode Full vf e) = some (encode Full vf e)
+  | [] => rfl
+  | S :: r => by
+    obtain ⟨e', h1, h2, _⟩ := hopQ_ok S vf e [0] h hf
+    simp [relay, h1, h2, C04_relay vf e h hf r]
+
+/-- … so a later process reconstructs exactly the error it would have reconstructed had it
+    received the message directly: same decoded value, hence same text, identity (marks),
+    annotations and rendering (everything C01, C02, C11 and C13 prove for a direct hop). -/
+theorem C04_subset_later (R : Proc) (vf : Err → Str) (e : Err) (h : stable e = true) (hf : faithful e = true)
+    (Ss : List (Str → Bool)) (p : List Nat) :
+    (relay vf Ss (encode Full vf e)).bind (decode R p) = decode R p (encode Full vf e) := by
+  simp [C04_relay vf e h hf Ss]
+
+/-- and the text every intermediary shows is the origin's -/
+theorem C04_subset_text_at_each (vf : Err → Str) (e : Err) (h : stable e = true) (hf : faithful e = true)
+    (Ss : List (Str → Bool)) (S : Str → Bool) :
+    ∃ e', (relay vf Ss (encode Full vf e)).bind (decode (Sub S) [0]) = some e' ∧ text e' = text e := by
+  obtain ⟨e', h1, _, h3⟩ := hopQ_ok S vf e [0] h hf
+  exact ⟨e', by simp [C04_relay vf e h hf Ss, h1], h3⟩
+
+/-- non-vacuity: a prefix wrapper over a hint over a join of a leaf and a handled error, received
+    by a process that knows the prefix and join types but none of the others -/
+def exSub : Err :=
+  .wrap [1] (.withPrefix (b!"ctx")) (.wrap [2] (.withHint (b!"h"))
+    (.multi [3] .join [.leaf [4] (.errorString (b!"a")), .barrier [5] ⟨b!"gone", none⟩ (.leaf [6] (.errorString (b!"x")))]))
+def exS : Str → Bool := fun k => k = k_withPrefix || k = k_join
+theorem exSub_hyps : stable exSub = true ∧ faithful exSub = true := by decide
+theorem exSub_mixed :
+    (decode (Sub exS) [0] (encode Full (fun _ => []) exSub)).map (fun e => (text e, (chain e).map (fun l => origTypeName l == (typeMark Full l).fam)))
+      = some (b!"ctx: a\ngone", [true, true, true]) := by decide
+
+/-- why `faithful` is needed for exact re-encoding too: a process that knows the join type but
+    not the barrier type re-sends the join with the markers the barrier's wire message showed it
+    (consequence of recorded finding D7) -/
+theorem C04_join_over_unknown_barrier_counterexample :
+    let e : Err := .multi [1] .join [.barrier [2] ⟨b!"a ‹b›", none⟩ (.leaf [3] (.errorString (b!"x")))]
+    let S : Str → Bool := fun k => k = k_join
+    stable e = true ∧ faithful e = false ∧
+    (decode (Sub S) [0] (encode Full (fun _ => []) e)).map (fun e' => decide (wireText (encode (Sub S) (fun _ => []) e') = wireText (encode Full (fun _ => []) e))) = some false := by
+  decide
 
 end ErrModel
